@@ -11,5 +11,5 @@ CONSTANTS
   WithTamper = FALSE
   SpendTrimCandidate = FALSE
 VIEW view
-INVARIANTS TypeOK ReorgEqualsFreshReplay CommitmentEqualsContent Recoverable SpentAtMostOnce
+INVARIANTS TypeOK ReorgEqualsFreshReplay CommitmentEqualsContent Recoverable SpentAtMostOnce NoHalfApply NoDoubleApply NoApplyWithoutHeadAdvance
 CHECK_DEADLOCK FALSE
